@@ -4,6 +4,7 @@ mod ledger;
 mod lin;
 mod orch;
 mod props;
+mod world;
 
 use common::*;
 
